@@ -88,3 +88,21 @@ Qed.
 Lemma nth_ext_Z (l1 l2 : list Z) :
   length l1 = length l2 -> (forall a, (a < length l1)%nat -> nth a l1 0%Z = nth a l2 0%Z) -> l1 = l2.
 Proof. intros Hl Hn. apply (nth_ext l1 l2 0%Z 0%Z Hl Hn). Qed.
+
+Lemma iota_length k n : length (iota k n) = n.
+Proof. revert k; induction n as [|n IH]; intros k; simpl; auto. Qed.
+
+Lemma nth_iota k n a d : (a < n)%nat -> nth a (iota k n) d = (k + a)%nat.
+Proof.
+  revert k a; induction n as [|n IH]; intros k [|a] H; simpl; try lia.
+  rewrite IH by lia. lia.
+Qed.
+
+Lemma nth_map_iota {A} (f : nat -> A) n a d : (a < n)%nat -> nth a (map f (iota 0 n)) d = f a.
+Proof.
+  intros H. rewrite (nth_indep _ d (f 0%nat)) by (rewrite map_length, iota_length; exact H).
+  rewrite (map_nth f (iota 0 n) 0%nat a), nth_iota by exact H. reflexivity.
+Qed.
+
+Lemma map_const_nth {A B} (l : list A) (c : B) j : nth j (map (fun _ => c) l) c = c.
+Proof. revert j; induction l as [|x l IH]; intros [|j]; simpl; auto. Qed.
